@@ -16,6 +16,9 @@ func init() {
 	h.NoNative = "the HTTP transport, request construction and body reading are stubs in this harness"
 	c09.Harnesses = append(c09.Harnesses, h,
 		ch("verifHarnessC09FileClient", map[string]int{"names": 2}, map[string]int{"names": 3}, []string{"end-absent", "end-same", "end-changed"}, "FileClient.GetIfChanged: not-changed iff the stored version equals V; absent -> not found"))
+	c09.Harnesses = append(c09.Harnesses, chNoNative(ch("verifHarnessC09FileClientLoad", map[string]int{"names": 2}, map[string]int{"names": 3}, []string{"end-absent", "end-present"},
+		"FileClient through NewFileClient over any secrets file (version 0, empty values): V = 0 behaves as a plain get; served entries have version >= 1"),
+		"the secrets file lives in the file-system model"))
 	c09.Bounds["client"] = "any status code (symbolic int), transport and body-read failures, well-formed or arbitrary response bytes"
 }
 
@@ -109,6 +112,53 @@ func init() {
 	}
 	h := ch("verifHarnessC10NewStoreDoc", map[string]int{"names": 2, "fails": 1, "entrykinds": 2}, map[string]int{"names": 2, "fails": 2, "entrykinds": 3},
 		[]string{"end-ok", "end-from-cache"}, "construction from a cache never drops a declared secret: cached value and access stamp are used as they are, for every expiry age, clock and stamp")
-	h.DeadOK = map[string]string{"undecodable-cache-contributes-no-names": "obligation of the shared driver for arbitrary-bytes caches (C10/C13)", "undecodable-cache-ignored-as-a-whole": "obligation of the shared driver for arbitrary-bytes caches (C10/C13)"}
+	why := "obligation of the shared driver for arbitrary-bytes caches (C10/C13)"
+	h.DeadOK = map[string]string{"undecodable-cache-contributes-no-names": why, "undecodable-cache-ignored-as-a-whole": why,
+		"cache-that-is-not-exactly-one-json-document-contributes-no-names": why, "cache-that-is-not-exactly-one-json-document-is-ignored-as-a-whole": why}
 	c19.Harnesses = append(c19.Harnesses, h)
+}
+
+func init() {
+	// C11: "after a successful poll every known secret is at the service's version" as seen through EVERY handle: racing
+	// lookups of one name followed by an install (registered under C12 as well).
+	if c11 := findProp("C11"); c11 != nil {
+		c11.Harnesses = append(c11.Harnesses, ch("verifHarnessC12RacingLookups", map[string]int{"names": 1}, map[string]int{"names": 2}, []string{"end"},
+			"after racing lookups of one name, an install reaches every handle handed out for it"))
+	}
+	// C17: the first upload at start-up relies on a reopened database reporting a positive generation (0 is the backup
+	// loop's "nothing uploaded yet"): decided on the real open path in the db package.
+	if c17 := findProp("C17"); c17 != nil {
+		if c03 := findProp("C03"); c03 != nil {
+			for _, h := range c03.Harnesses {
+				if h.Name == "verifHarnessC03Put" {
+					hh := *h
+					hh.Desc = "database leg of the start-up upload: a database reopened from its file reports generation 1, not the loop's sentinel 0 (" + h.Desc + ")"
+					c17.Harnesses = append(c17.Harnesses, &hh)
+				}
+			}
+		}
+	}
+}
+
+const raceNote = "lock sets are ghost state of the engine; natively the race detector is the tool for this"
+
+func init() {
+	// "No data race occurs in the server, database or audit writer" (C14): the concurrent-writers harness of the audit writer
+	// runs with lock-set tracking; the same harness decides C06's "never interleaved, truncated or lost".
+	c06 := findProp("C06")
+	c14 := findProp("C14")
+	if c06 == nil || c14 == nil {
+		return
+	}
+	for _, h := range c06.Harnesses {
+		if h.Name == "verifHarnessC06ConcurrentWriters" {
+			if h.ModelOnlyLabels == nil {
+				h.ModelOnlyLabels = map[string]string{}
+			}
+			h.ModelOnlyLabels["data-race"] = raceNote
+			hh := *h
+			hh.Desc = "audit writer under two overlapping WriteEntries calls: no memory written by both without a common lock (lock-set tracking), every record intact"
+			c14.Harnesses = append(c14.Harnesses, &hh)
+		}
+	}
 }
